@@ -363,7 +363,7 @@ Proof.
   destruct (pfp fs il None ws p0) as [st|st f|] eqn:Er.
   - (* the typed words parse completely *)
     destruct (joint fs il ws Hq t0 None p0 J0 _ Er ltac:(discriminate)) as [Hf Hc]. cbn [pending_of state_of] in Hf, Hc.
-    unfold traverse. cbv zeta. rewrite Hf, t_inargs_all. cbn [t_inargs t0 app]. unfold parse at 1. rewrite pfp_is_pf_parse, Er. cbn [to_presult].
+    unfold traverse, finish. cbv zeta. rewrite Hf, t_inargs_all. cbn [t_inargs t0 app]. unfold parse at 1. rewrite pfp_is_pf_parse, Er. cbn [to_presult].
     destruct (p_dash st) as [d|] eqn:Ed.
     + destruct (pfp_dash_inv fs il ws None p0 eq_refl st d) as (Hle & Hs & _); [rewrite Er; reflexivity|exact Ed|].
       cbn [slot_sound]. intros p st' H. rewrite parse_app, Er in H. cbn [pfp] in H. rewrite Hs in H. cbn in H. injection H as <-.
@@ -387,7 +387,7 @@ Proof.
            split; [rewrite nth_error_app2, Nat.sub_diag by lia; reflexivity|]. rewrite app_length. cbn. lia.
   - (* the last typed word leaves a flag waiting for its argument *)
     destruct (joint fs il ws Hq t0 None p0 J0 _ Er ltac:(discriminate)) as [Hf _]. cbn [pending_of] in Hf.
-    unfold traverse. cbv zeta. rewrite Hf, t_inargs_all. cbn [t_inargs t0 app].
+    unfold traverse, finish. cbv zeta. rewrite Hf, t_inargs_all. cbn [t_inargs t0 app].
     destruct (pending_last fs il ws None p0 st f Er) as [(_ & E & _)|[_ (st1 & Hrl & Hd1 & _)]]; [discriminate|].
     unfold parse at 1. rewrite pfp_is_pf_parse, Hrl. cbn [to_presult]. rewrite Hd1.
     destruct (p_dash st) as [d|] eqn:Ed.
